@@ -5,7 +5,7 @@
 //! environment or a hash-ordered container.
 
 use crate::corpus::{item_attrs_mut, Corpus};
-use crate::req::{canon, canon_loose, lex, size_and_depth, Mode, Request};
+use crate::req::{canon, lex, size_and_depth, Mode, Request};
 use crate::rng::{derive_seed, Rng};
 use proc_macro2::{Delimiter, Group, Ident, Literal, Punct, Spacing, Span, TokenStream, TokenTree};
 use quote::{quote, ToTokens};
@@ -31,19 +31,20 @@ pub fn is_valid_request(r: &Request) -> bool {
     if r.mode == Mode::Derive && !r.attr.is_empty() {
         return false;
     }
-    let reprinted = match r.mode {
+    // the item must parse (as an item for the attribute macro, as a struct / enum / union for
+    // the derive macro); it need not be in syn's own printed form (`impl<> Add<> for X` is a
+    // valid input although syn re-prints it without the empty angle brackets)
+    match r.mode {
         Mode::Attr => match syn::parse2::<Item>(item.clone()) {
             Ok(Item::Verbatim(_)) => return false,
-            Ok(i) => i.to_token_stream(),
+            Ok(_) => {}
             Err(_) => return false,
         },
-        Mode::Derive => match syn::parse2::<syn::DeriveInput>(item.clone()) {
-            Ok(i) => i.to_token_stream(),
-            Err(_) => return false,
-        },
-    };
-    if canon_loose(&reprinted) != canon_loose(&item) {
-        return false;
+        Mode::Derive => {
+            if syn::parse2::<syn::DeriveInput>(item.clone()).is_err() {
+                return false;
+            }
+        }
     }
     // and the printed form must lex back to the same tokens
     match lex(&item.to_string()) {
@@ -85,7 +86,15 @@ const UNKNOWN_TRAITS: &[&str] = &[
     "Index", "From", "Display", "clone", "PartialEqq", "AddAssignAssign", "Assign", "r#Clone",
     "Sized", "Send", "AsRef", "Iterator", "Ex", "derive_ex", "bound", "dump", "Self", "Fn",
     "@long1100",
+    // non-ASCII names: multi-byte characters at every offset from either end
+    "Z\u{e4}hlung", "\u{c4}pfell", "Add\u{c4}ssign", "\u{540d}Clone", "\u{6f14}\u{7b97}\u{5b50}X", "Gr\u{f6}\u{df}e",
+    "\u{c4}Assign", "\u{52a0}Assign", "\u{dc}n\u{ef}c\u{f6}d\u{e9}", "\u{52a0}\u{6cd5}\u{904b}\u{7b97}", "Clon\u{e9}", "\u{e9}Clone",
+    "A\u{e9}", "Ab\u{e9}", "Abc\u{e9}", "Abcd\u{e9}", "Abcde\u{e9}", "\u{e9}A", "\u{e9}Ab", "\u{e9}Abc", "\u{e9}Abcd", "\u{e9}Abcde",
+    "\u{10400}A", "A\u{10400}", "Ab\u{10400}cdef", "\u{1e9e}Assign", "Ord\u{e9}", "Partial\u{e9}q", "Deref\u{e9}Mut",
 ];
+pub fn unknown_traits() -> &'static [&'static str] {
+    UNKNOWN_TRAITS
+}
 const HELPER_ATTRS: &[&str] = &[
     "#[ord(ignore)]",
     "#[ord(reverse)]",
